@@ -12,10 +12,11 @@ def chain_strides(rnd, ext, gaps=(1, 1, 2, 3)):
     return s
 
 class Case:
-    __slots__ = ('inst', 'ext', 'str', 'pv', 'stream', 'ops', 'impl', 'model', 'adm', 'idx_complete')
+    __slots__ = ('inst', 'ext', 'str', 'pv', 'stream', 'ops', 'impl', 'model', 'adm', 'idx_complete', 'pt')
     def __init__(self, inst, ext, strides=None, pv=None, stream=''):
         self.inst, self.ext, self.str, self.pv, self.stream = inst, list(ext), strides, pv, stream
         self.ops = []; self.impl = []; self.model = []; self.adm = None; self.idx_complete = False
+        self.pt = None      # C++ type of the padding argument (None: index_type)
     @property
     def kind(self): return self.inst[0]
     @property
@@ -24,10 +25,11 @@ class Case:
         s = G.line_prefix(self.inst) + ' ext=%s' % C.fmt(self.ext)
         if self.str is not None: s += ' str=%s' % C.fmt(self.str)
         if self.pv is not None: s += ' pv=%d' % self.pv
+        if self.pt is not None: s += ' pt=%s' % self.pt
         return s
     def pub(self):
         return dict(line=self.base(), kind=self.kind, index_type=self.T, pattern=G.pat_str(self.inst[2]), static_padding=self.inst[3],
-                    extents=self.ext, strides=self.str, padding=self.pv, stream=self.stream)
+                    extents=self.ext, strides=self.str, padding=self.pv, padding_argument_type=self.pt, stream=self.stream)
     def out(self, op, arg=None, side='impl'):
         for (o, a), x in zip(self.ops, getattr(self, side)):
             if o == op and (arg is None or a == arg): return x
@@ -53,7 +55,7 @@ def ext_choices(pat, small):
 def gen_cases(seed, tier, insts):
     rnd = random.Random(seed); cases = []
     thorough = tier == 'thorough'
-    std_ops = [('span', None), ('strides', None), ('stridesarr', None), ('flags', None), ('ext', None)]
+    std_ops = [('span', None), ('strides', None), ('stridesarr', None), ('flags', None), ('ext', None), ('cvs', None)]
     def variants(inst, ext, nstr, stream):
         kind, t, pat, sp = inst; out = []
         if kind == 'stride':
@@ -62,7 +64,8 @@ def gen_cases(seed, tier, insts):
         elif kind in ('lpad', 'rpad'):
             if sp == 'D':
                 out.append(Case(inst, ext, stream=stream))
-                for pv in rnd.sample(range(1, 6), 2 if not thorough else 3): out.append(Case(inst, ext, pv=pv, stream=stream))
+                for pv in rnd.sample(range(1, 6), 2 if not thorough else 3):
+                    c_ = Case(inst, ext, pv=pv, stream=stream); c_.pt = rnd.choice([None, None, 'u8', 'i16', 'i64', 'u64']); out.append(c_)
             else:
                 out.append(Case(inst, ext, stream=stream))
                 if rnd.random() < 0.3: out.append(Case(inst, ext, pv=sp, stream=stream))
@@ -152,6 +155,19 @@ def gen_cases(seed, tier, insts):
                     if big > H or 1 + sum((e - 1) * x for e, x in zip(ext, st)) > H or big < C.prod(ext[:-1]): continue
                     c = Case(inst, ext, strides=st, stream='wrap-congruent-gap'); c.idx_complete = True
                     c.ops = [('span', None), ('strides', None), ('flags', None)] + [('off', C.fmt(i)) for i in all_indices(ext)]
+                    cases.append(c)
+    # ---- padding argument of a NARROWER type than index_type while the extent to pad is beyond that type's range
+    for t, pt, big in (('i32', 'u8', 300), ('i32', 'i16', 40000), ('u32', 'u8', 257), ('i64', 'i32', 2 ** 32 + 5), ('u64', 'i16', 70000), ('u16', 'u8', 1000), ('i64', 'u8', 2 ** 40 + 3)):
+        for r in (2, 3):
+            for kind in ('lpad', 'rpad'):
+                inst = dyn.get((kind, t, r))
+                if inst is None: continue
+                for pv in (8, 3, 1, 100):
+                    others = [rnd.choice([1, 2, 3]) for _ in range(r - 1)]
+                    ext = [big] + others if kind == 'lpad' else others + [big]
+                    c = Case(inst, ext, pv=pv, stream='pad-argument-type'); c.pt = pt
+                    idxs = [[x - 1 for x in ext], [0] * r] + [[1 if k == j else 0 for k in range(r)] for j in range(r) if ext[j] > 1]
+                    c.ops = [('span', None), ('strides', None), ('stridesarr', None), ('flags', None), ('cvs', None)] + [('off', C.fmt(i)) for i in idxs]
                     cases.append(c)
     # ---- padded boundary: extent-to-pad and padding near the top of the type, other extents 0/1/2
     for t in C.ITYPES:
